@@ -32,6 +32,7 @@ func NewKeeper(
 	accountKeeper types.AccountKeeper,
 	authority string,
 ) *Keeper {
+	bankKeeper = verifWrapBankKeeper(bankKeeper)
 	return &Keeper{
 		cdc:           cdc,
 		storeKey:      storeKey,
